@@ -32,7 +32,7 @@ func (c ColUUID) EncodeColumn(b *Buffer) {
 		copy(b.Buf[offset:offset+size], v[:])
 		offset += size
 	}
-	bswap.Swap64(b.Buf) // BE <-> LE
+	bswap.Swap64(b.Buf[len(b.Buf)-size*len(c):]) // BE <-> LE
 }
 
 // WriteColumn encodes ColUUID rows to *Writer.
